@@ -274,7 +274,7 @@ where
             }
         }
         let c = w.clone();
-        if !Arc::ptr_eq(&*w, &*c) {
+        if !std::ptr::eq(inner_addr(&*w), inner_addr(&*c)) {
             agg.diff(probe, "root", "clone-shares", "same allocation".into(), "copied".into(), vs.clone());
         }
         drop(c);
@@ -308,7 +308,7 @@ where
                         let what = if obs.0 != bare_obs.0 { "serialize" } else if obs.1 != bare_obs.1 { "check_restrictions" } else { "debug" };
                         agg.diff(probe, "root+shared-handles", what, format!("{bare_obs:?}"), format!("{obs:?}"), format!("{vs} ops={seq:?} handle={hi} live={}", handles.len()));
                     }
-                    if !Arc::ptr_eq(&**h, &*handles[0]) {
+                    if !std::ptr::eq(inner_addr(&**h), inner_addr(&*handles[0])) {
                         agg.diff(probe, "root+shared-handles", "clone-shares", "same allocation".into(), "copied".into(), format!("{vs} ops={seq:?}"));
                     }
                 }
@@ -707,4 +707,10 @@ pub fn replay(v: &Violation) -> i32 {
     println!("replay C19: probe={} position={} observation={} value={}", v.case["probe"], v.case["position"], v.case["observation"], v.case["value"]);
     println!("C19 is a complete enumeration that runs in seconds; re-running it is the replay:");
     check("quick")
+}
+
+/// address of the shared value behind whatever smart pointer the wrapper derefs to (the check must
+/// not depend on the pointer type the helper happens to use)
+fn inner_addr<P: std::ops::Deref>(p: &P) -> *const P::Target {
+    &**p as *const P::Target
 }
